@@ -1126,6 +1126,10 @@ func (s *Sim) afterBlock() {
 		s.resyncFromExport(pause)
 		s.resyncPause = false
 	}
+	if s.Model.Unrepresentable && !s.statsTainted {
+		s.statsTainted = true
+		s.Stats.Probe("statistics_total_beyond_256_bits")
+	}
 	if !s.statsTainted {
 		s.Stats.Count("rule:C12.fold")
 		want := s.Model.RenderStats()
